@@ -452,6 +452,40 @@ def register_update(chk, upd, consts):
         chk.expect(ok, 'C14.3e', 'origin', upd.site(u), ast.unparse(u), 'the hashed bytes are those of the value', 'the hasher is not fed with the value passed in', soft=True)
 
 
+    fed_on_every_path(chk, upd)
+
+
+def fed_on_every_path(chk, upd):
+    """C14.3g - on every path of the register update the digest is taken from a hasher that was fed with the value: a path on which nothing is fed
+    hashes every value of that kind (e.g. every str) to the digest of the empty input, i.e. to one register"""
+    from ..match import run_paths
+    if not calls(upd, attr=('intdigest', 'digest', 'hexdigest')):
+        return
+    paths = run_paths(upd, None, None, max_forks=4)
+    if paths is None or any(res.unknown is not None for _a, res in paths):
+        chk.unsure('C14.3g', 'R1', upd.site(), 'hasher.update(value) on every path', 'the paths of the register update could not be enumerated')
+        return
+    bad = None
+    n = 0
+    for assume, res in paths:
+        if res.raised is not None:
+            continue
+        n += 1
+        fed = [c for c in res.calls if isinstance(c['call'].func, ast.Attribute) and c['call'].func.attr == 'update' and c['call'].args]
+        fed += [c for c in res.calls if (upd.module.dotted(c['call'].func) or '').startswith('xxhash.') and c['call'].args]
+        # a one-shot constructor with data may also sit in a binding of the path
+        fed += [1 for v in (res.env or {}).values() if v is not None for x in ast.walk(v) if isinstance(x, ast.Call) and (upd.module.dotted(x.func) or '').startswith('xxhash.') and x.args]
+        if not fed:
+            bad = assume
+            break
+    if bad is not None:
+        cond = ' and '.join(('' if v else 'not ') + f'({ast.unparse(t)[:40]})' for t, v in bad) or 'the only path'
+        chk.bad('C14.3g', 'R1', upd.site(), f'path: {cond}', 'on this path the digest is taken although nothing was fed to the hasher: every value taking this path gets the digest of the empty input and lands in ONE register, '
+                'so beyond the warm-up capacity all such values count as one')
+    else:
+        chk.ok('C14.3g', 'R1', upd.site(), 'hasher.update(<value>) on every path', f'{n} path(s): the hasher is fed before the digest is taken on each', inspected=n)
+
+
 # -- 4 estimator --------------------------------------------------------------------
 def estimator(chk, ln, consts):
     m = ln.module
